@@ -36,7 +36,7 @@ m = {
               "baseline_off_cmd": "cd /repo && (cargo nextest run --workspace --no-fail-fast --offline || cargo test --workspace --no-fail-fast --offline)",
               "source_commits": [], "add_only": True},
     "engines": [{"name": "xcpsim", "path": "sim/", "serves_properties": [c["property_id"] for c in checks],
-                 "kind_free_text": "ptrace token-passing supervisor around the unmodified xcp binary: seeded scheduler (random/PCT/run-to-block/starve/explicit) with preemption at every system call and, by single-stepping, after atomic instructions in user space; emulated futex queues, simulated kernel (errno injection, short transfers, kill, FIEMAP/FICLONE emulation, directory-order permutation), tmpfs sandbox builder and snapshotter; python campaign engine with reference model, oracles, minimiser and replay"}],
+                 "kind_free_text": "ptrace token-passing supervisor around the unmodified xcp binary: seeded scheduler (random/PCT/run-to-block/starve/explicit) with preemption at every system call and, by single-stepping, after atomic instructions in user space; emulated futex queues with timed waits on a simulated clock (vDSO switched off at exec; seeded time jumps), simulated kernel (errno injection, short transfers, kill, FIEMAP/FICLONE emulation, directory-order permutation), tmpfs sandbox builder and snapshotter; python campaign engine with reference model, oracles, minimiser and replay"}],
     "checks": checks,
     "not_applicable": na,
     "notes": "Exit codes: 0 held, 1 VIOLATION (with replay file), 2 harness error. known_findings.json lists recorded defects (open) and repaired ones (fixed, with the fix: commit); witnesses under witness/ are re-run by the owning check.",
